@@ -435,7 +435,7 @@ def wrap_rule(ctx, r):
     if len(arr) != 1:
         r.bad("into_whole_line|shape", "anchor-missing: into_whole_line does not build a 3-element concat", fn=g)
     else:
-        got = [H.canon(x, env) for x in arr[0]["xs"]]
+        got = [H.canon(x, H.AllInline(env)) for x in arr[0]["xs"]]
         want = ["regex_syntax::hir::Hir::look(self.line_anchor_start())", "self.hir",
                 "regex_syntax::hir::Hir::look(self.line_anchor_end())"]
         if got == want:
@@ -566,6 +566,12 @@ def run(ctx):
     with ctx.rule("C01.WRAP", "word / whole-line wrapping tables; smart-case truth table (16 rows)", floor=7, exhaustive=True,
                   kind="TABLE/TRUTH") as r:
         wrap_rule(ctx, r)
+    from . import c11
+    with ctx.rule("C01.EXACT", "inner-literal exact/inexact bookkeeping (shared with C11.EXACT): a truncated literal must never stay exact",
+                  floor=9, kind="PASS/GUARD") as r:
+        c11.exact_rule(ctx, r)
+    with ctx.rule("C01.GATE", "literal prefilter gating and candidate/confirmed labelling (shared with C11.GATE)", floor=4, kind="GUARD/ARMS") as r:
+        c11.gate_rule(ctx, r)
     with ctx.rule("C01.STRIPHIR", "terminator stripped from the pattern whenever configured; effective terminator stored", floor=8,
                   kind="PASS/GUARD") as r:
         striphir_rule(ctx, r)
